@@ -10,6 +10,9 @@ from vlib import SPEC, log
 # what the model says the code does at HEAD (flip when a fix: commit lands)
 SWITCHES = json.load(open(os.path.join(vlib.ROOT, "spec", "payments_switches.json")))
 PRIVATE = bool(os.environ.get("VERIF_HARNESS_DIR"))
+if PRIVATE and os.environ.get("PM_SWITCH_REVOKE_VALIDATES"):
+    # self-test of a proposed repair in a private copy of the repository
+    SWITCHES = dict(SWITCHES, revokeValidates=os.environ["PM_SWITCH_REVOKE_VALIDATES"] == "true")
 
 
 def wd(name):
